@@ -46,7 +46,7 @@ def _box(draw, x=None, y=None):
 
 @st.composite
 def pairs3d(draw, tier="quick"):
-    kind = draw(st.sampled_from(["indep", "near", "nested", "touch", "disjoint", "sliver", "axis", "overlap", "overlap", "corner", "corner", "ulp", "shared"]))
+    kind = draw(st.sampled_from(["indep", "near", "nested", "touch", "disjoint", "sliver", "axis", "overlap", "overlap", "corner", "corner", "ulp", "shared", "diag"]))
     a = _box(draw)
     if kind == "sliver":
         a["size"] = [draw(GEN.fl(0.05, 0.1)), draw(GEN.fl(5, 30)), draw(GEN.fl(0.5, 3))]
@@ -102,6 +102,26 @@ def pairs3d(draw, tier="quick"):
             p=[a["p"][0] + c * dx - s * dy, a["p"][1] + s * dx + c * dy, a["p"][2] + draw(GEN.fl(-0.3, 0.3)) * h],
             yaw=a["yaw"] + draw(st.sampled_from([0.0, 0.0, 0.05, -0.2, PI])),
             size=[wb, lb, h * draw(GEN.fl(0.7, 1.3))],
+        )
+    elif kind == "diag":
+        # the ground truth b is axis-aligned and placed so that one corner is strictly nearest to the ego and its two
+        # neighbouring corners are exactly equidistant (2nd / 3rd place tie: either neighbour completes "the nearest side");
+        # the estimate differs in size and heading, so that the four corner offsets differ
+        lb, wb = draw(st.sampled_from([1.0, 2.0, 4.0])), draw(st.sampled_from([1.0, 2.0, 4.0]))
+        m = draw(st.sampled_from([0.0, 0.5, 1.0, 3.0, 8.0]))
+        cx, cy = m, (2 * lb * m + lb * lb - wb * wb) / (2 * wb)
+        if cy <= 0:
+            lb, wb = wb, lb
+            cy = (2 * lb * m + lb * lb - wb * wb) / (2 * wb)
+        if cx == 0 and cy == 0:
+            cx = cy = 2.0
+            lb = wb
+        sx, sy = draw(st.sampled_from([1, -1])), draw(st.sampled_from([1, -1]))
+        b.update(p=[sx * (cx + lb / 2), sy * (cy + wb / 2), 0.25], yaw=0.0, size=[wb, lb, 1.5], qs=1)
+        a.update(
+            p=[b["p"][0] + draw(st.sampled_from([0.0, 0.25, -0.5])), b["p"][1] + draw(st.sampled_from([0.0, -0.25, 0.5])), 0.0],
+            yaw=draw(st.sampled_from([0.0, 0.2, -0.3, 1.0])),
+            size=[wb * draw(st.sampled_from([1.0, 1.25, 0.5])), lb * draw(st.sampled_from([1.5, 0.75, 1.0])), 1.5],
         )
     elif kind in ("touch", "disjoint"):
         # b is a's copy shifted along a's length axis by exactly l (touch) or more (disjoint)
